@@ -368,7 +368,7 @@ fn run_shard(eng: &Engine, class: &str, lo: usize, hi: usize, seed: u64, replay_
             Command::new(&eng.exe)
         } else {
             let mut c = Command::new(&eng.prefix[0]);
-            c.args(&eng.prefix[1..]);
+            c.args(eng.prefix[1..].iter().map(|a| a.replace("{SCRATCH}", &dir.path().display().to_string())));
             c.arg(&eng.exe);
             c
         };
@@ -664,7 +664,7 @@ fn main() {
             let memcheck = Engine {
                 name: "memcheck",
                 exe: self_exe.clone(),
-                prefix: vec![vg.display().to_string(), "-q".into(), "--error-exitcode=99".into(), "--exit-on-first-error=yes".into(), "--leak-check=no".into(), "--undef-value-errors=no".into()],
+                prefix: vec![vg.display().to_string(), "-q".into(), "--error-exitcode=99".into(), "--exit-on-first-error=yes".into(), "--leak-check=no".into(), "--undef-value-errors=no".into(), "--log-file={SCRATCH}/stderr.txt".into()],
                 env: vec![],
                 slow: 60,
             };
